@@ -373,3 +373,11 @@ package selector
 // ---- C20: a compiled selector is only read (frame sweep) ----
 //@ sweep[C20] assigns nothing: ExploreAll, ExploreFields, ExploreIndex, ExploreRange, ExploreRecursive, ExploreRecursiveEdge,
 //@   ExploreUnion, ExploreInterpretAs, Matcher, Condition, Slice, RecursionLimit, listSegmentIterator, mapSegmentIterator
+
+// ---- the recursion-limit constructors build exactly the limit asked for ----
+//@ func RecursionLimitDepth(depth) (r)
+//@   assigns[C20] nothing
+//@   ensures[C07] r.mode == RecursionLimit_Depth && r.depth == depth
+//@ func RecursionLimitNone() (r)
+//@   assigns[C20] nothing
+//@   ensures[C07] r.mode == RecursionLimit_None && r.depth == 0
